@@ -304,6 +304,7 @@ HStart(h, c, kind, pay, md, dlus) ==
      /\ hnds' = Put(hnds, h, [c |-> c, id |-> r.id, kind |-> kind, nrecv |-> 0,
                               sent |-> <<>>, sres |-> <<>>, lastW |-> 0,
                               hdr |-> EmptyF, pendHdr |-> EmptyF, hdrPending |-> FALSE, hdrW |-> FALSE,
+                              hdrQ |-> FALSE, hdrQmd |-> EmptyF, hdrQby |-> FALSE, hsent |-> FALSE,
                               trl |-> EmptyF, ret |-> FALSE, rc |-> -1, rmsg |-> "", rndet |-> 0,
                               rpay |-> "", trW |-> FALSE, rst |-> FALSE,
                               dl |-> IF dlus >= 0 THEN T + ((dlus + 999) \div 1000) ELSE -1,
@@ -337,7 +338,7 @@ HRecvRet(h, res, pay) ==
 
 HSend(h, pay) ==
   /\ h \in DOMAIN hnds /\ hnds[h].kind # "unary" /\ ~hnds[h].ret
-  /\ HUpd(h, [hnds[h] EXCEPT !.sent = Append(@, pay), !.sres = Append(@, "?")])
+  /\ HUpd(h, [hnds[h] EXCEPT !.sent = Append(@, pay), !.sres = Append(@, "?"), !.hsent = TRUE])
 
 HSendRet(h, res) ==
   /\ h \in DOMAIN hnds /\ Len(hnds[h].sres) > 0 /\ hnds[h].sres[Len(hnds[h].sres)] = "?"
@@ -346,20 +347,29 @@ HSendRet(h, res) ==
 
 HSetHdr(h, md, res) ==
   /\ h \in DOMAIN hnds /\ ~hnds[h].ret
-  /\ G("md", res = "err" => hnds[h].hdrW \/ hnds[h].hdrPending \/ HCause(h))
+  /\ G("md", res = "err" => hnds[h].hsent \/ hnds[h].hdrW \/ hnds[h].hdrPending \/ hnds[h].hdrQ \/ HCause(h))
   /\ HUpd(h, IF res = "ok" THEN [hnds[h] EXCEPT !.hdr = Cat2(@, md)] ELSE hnds[h])
 
-\* stream SendHeader: call and return are separate events (the envelope is emitted in between)
+\* stream SendHeader: call and return are separate events; the header-only envelope is handed
+\* to the connection's writer in between and reaches the wire before or after the return (hdrQ:
+\* a header-only envelope is owed to the wire)
 HSendHdr(h, md) ==
   /\ h \in DOMAIN hnds /\ ~hnds[h].ret
-  /\ HUpd(h, [hnds[h] EXCEPT !.pendHdr = md, !.hdrPending = TRUE])
+  /\ LET x == hnds[h]
+         first == ~x.hsent /\ ~x.hdrW /\ ~x.hdrQ IN      \* only the first SendHeader emits
+     HUpd(h, [x EXCEPT !.pendHdr = md, !.hdrPending = TRUE, !.hdrQby = first,
+                       !.hdrQ = @ \/ first, !.hdrQmd = IF first THEN Cat2(x.hdr, md) ELSE @])
 HSendHdrRet(h, res) ==
   /\ h \in DOMAIN hnds /\ hnds[h].hdrPending
-  /\ G("md", res = "err" => hnds[h].hdrW \/ HCause(h))
-  /\ HUpd(h, [hnds[h] EXCEPT !.hdrPending = FALSE, !.pendHdr = EmptyF,
+  /\ G("md", res = "err" => hnds[h].hsent \/ hnds[h].hdrW \/ HCause(h))
+  /\ HUpd(h, [hnds[h] EXCEPT !.hdrPending = FALSE, !.pendHdr = EmptyF, !.hsent = @ \/ res = "ok",
+                             !.hdrQ = IF res = "err" /\ hnds[h].hdrQby THEN FALSE ELSE @,
                              !.hdr = IF res = "ok" THEN Cat2(@, hnds[h].pendHdr) ELSE @])
-\* unary grpc.SendHeader only collects
-HSendHdrUnary(h, md, res) == HSetHdr(h, md, res)
+\* unary grpc.SendHeader only collects, and marks the headers as sent
+HSendHdrUnary(h, md, res) ==
+  /\ h \in DOMAIN hnds /\ ~hnds[h].ret
+  /\ G("md", res = "err" => hnds[h].hsent \/ HCause(h))
+  /\ HUpd(h, IF res = "ok" THEN [hnds[h] EXCEPT !.hdr = Cat2(@, md), !.hsent = TRUE] ELSE hnds[h])
 
 HSetTrl(h, md) ==
   /\ h \in DOMAIN hnds /\ ~hnds[h].ret
@@ -442,9 +452,9 @@ ServerWrite(env) ==
            /\ G("wire", RespHdrConst(env, x))
            /\ \/ \* explicit header
                  /\ env.b = 0 /\ env.t = 0 /\ env.s = 0
-                 /\ G("wire", x.hdrPending /\ ~x.hdrW)
-                 /\ G("md", md = Cat2(x.hdr, x.pendHdr))
-                 /\ hnds' = [hnds EXCEPT ![h].hdrW = TRUE]
+                 /\ G("wire", x.hdrQ /\ ~x.hdrW)
+                 /\ G("md", md = x.hdrQmd)
+                 /\ hnds' = [hnds EXCEPT ![h].hdrW = TRUE, ![h].hdrQ = FALSE]
               \/ \* message
                  /\ env.b = 1 /\ env.t = 0 /\ env.s = 0
                  /\ HasNextSend(x)
